@@ -68,6 +68,18 @@ struct Out {
     w: Box<dyn Write + Send>,
 }
 
+/// seconds since start at which a reduction was last (re)started; a watchdog turns a call that never returns into a HANG report
+static LAST_PROGRESS: std::sync::atomic::AtomicU64 = std::sync::atomic::AtomicU64::new(0);
+static CURRENT: std::sync::Mutex<String> = std::sync::Mutex::new(String::new());
+fn tick(desc: String) {
+    let now = START.get_or_init(std::time::Instant::now).elapsed().as_secs();
+    LAST_PROGRESS.store(now, std::sync::atomic::Ordering::SeqCst);
+    if let Ok(mut c) = CURRENT.lock() {
+        *c = desc;
+    }
+}
+static START: std::sync::OnceLock<std::time::Instant> = std::sync::OnceLock::new();
+
 /// run `jobs` concurrently (each on its own large-stack thread, writing to its own buffer) and emit their output in order
 fn parallel<F>(out: &mut Out, jobs: Vec<F>)
 where
@@ -117,12 +129,14 @@ fn run(out: &mut Out, prop: &str, name: &str, cterm: &Term, args: &[V], expected
     for o in orders {
         let mut u = t.clone();
         eprintln!("CUR op {} {} {}", name, order_name(*o), args.iter().map(vs).collect::<Vec<_>>().join(" "));
+        tick(format!("op {} {} {}", name, order_name(*o), args.iter().map(vs).collect::<Vec<_>>().join(" ")));
         // reduce in chunks so that a diverging computation is cut off by its size, not by memory exhaustion
         const CHUNK: usize = 2000;
         let mut total = 0usize;
         let (res, c) = loop {
             match catch_unwind(AssertUnwindSafe(|| u.reduce(*o, CHUNK))) {
                 Ok(c) => {
+                    tick(format!("op {} {} {} (after {} steps)", name, order_name(*o), args.iter().map(vs).collect::<Vec<_>>().join(" "), total + c));
                     total += c;
                     if c < CHUNK {
                         break (ser(&u), total);
@@ -163,6 +177,7 @@ fn run_unlimited(out: &mut Out, prop: &str, name: &str, cterm: &Term, args: &[V]
     for o in orders {
         let mut u = t.clone();
         eprintln!("CUR op0 {} {} {}", name, order_name(*o), args.iter().map(vs).collect::<Vec<_>>().join(" "));
+        tick(format!("UNLIMITED reduce({}, 0) of {} {}", order_name(*o), name, args.iter().map(vs).collect::<Vec<_>>().join(" ")));
         let (res, c) = match catch_unwind(AssertUnwindSafe(|| u.reduce(*o, 0))) {
             Ok(c) => (ser(&u), c),
             Err(_) => ("PANIC".to_string(), 0),
@@ -790,6 +805,18 @@ fn main() {
     let tier = args.get(2).cloned().unwrap_or("quick".into());
     let seed: u64 = args.get(3).and_then(|s| s.parse().ok()).unwrap_or(1);
     std::panic::set_hook(Box::new(|_| {}));
+    tick("start".to_string());
+    std::thread::spawn(|| loop {
+        std::thread::sleep(std::time::Duration::from_secs(2));
+        let now = START.get_or_init(std::time::Instant::now).elapsed().as_secs();
+        let last = LAST_PROGRESS.load(std::sync::atomic::Ordering::SeqCst);
+        if now > last + 90 {
+            let d = CURRENT.lock().map(|s| s.clone()).unwrap_or_default();
+            println!("\nHANG\t{}", d);
+            std::io::stdout().flush().ok();
+            std::process::exit(3);
+        }
+    });
     let child = std::thread::Builder::new()
         .stack_size(6 << 30)
         .spawn(move || {
